@@ -1,6 +1,7 @@
 package main
 
 import (
+	"strings"
 	"fmt"
 	"go/token"
 	"go/types"
@@ -320,7 +321,7 @@ func c10ScopeFamily(c *Ctx) {
 
 func c10Opt(c *Ctx) {
 	rule := "C10.opt"
-	c.Rule(rule, "A9: every place the query entry point creates a dns.OPT is control dependent on request.IsEdns0() != nil, appends the option under ecs != nil, and prepends the OPT to the Extra section of the message that is then handed to the writer; there are exactly two such places (cache hit, computed answer) and no other OPT is created in the module's serving packages")
+	c.Rule(rule, "A9: every place the query entry point creates a dns.OPT is control dependent on request.IsEdns0() != nil, appends the option under ecs != nil, and prepends the OPT to the Extra section of the message that is then handed to the writer; every response write of the entry point except the ready-made BADVERS reply is covered by exactly one such place, and no other OPT is created in the module's serving packages")
 	serve := c.Func("dnsserver", "(*FBDNSDB).ServeDNSWithRCODE")
 	c.Examined(serve)
 	optT := namedType(c, dnsPkg, "OPT")
@@ -335,7 +336,42 @@ func c10Opt(c *Ctx) {
 			}
 		}
 	}
-	c.Check(rule, fnName(serve)+"|two-reattachment-sites", len(opts) == 2, serve.Pos(), fmt.Sprintf("%d OPT constructions in the query entry point (cache hit and computed answer)", len(opts)))
+	// every response written by the entry point carries an OPT built here (with the echoed option), except the BADVERS
+	// reply, whose message comes ready-made from edns.Version: the request's EDNS version is unknown, so its options
+	// are not interpreted (RFC 6891 §6.1.3)
+	covered := map[ssa.CallInstruction]bool{}
+	for _, o := range opts {
+		for _, st := range storesToField(serve, fExtra) {
+			if !backSlice(st.Val, nil)[o] {
+				continue
+			}
+			msg := st.Addr.(*ssa.FieldAddr).X
+			for _, w := range callsTo(serve, func(f *types.Func) bool { return f == write }) {
+				if sameSources(w.Common().Args[2], msg) && (instrDominates(st, w) || reachable(st.Block(), nil)[w.Block()]) {
+					covered[w] = true
+				}
+			}
+		}
+	}
+	nw := 0
+	for _, w := range callsTo(serve, func(f *types.Func) bool { return f == write }) {
+		nw++
+		fromVersion := false
+		for s := range sourcesOf(w.Common().Args[2]) {
+			if call, _ := callOfValue(s); call != nil {
+				if f := calleeOf(call.Common()); f != nil && f.Pkg() != nil && strings.HasSuffix(f.Pkg().Path(), "plugin/pkg/edns") && f.Name() == "Version" {
+					fromVersion = true
+				}
+			}
+		}
+		k := fmt.Sprintf("%s|write#%d", fnName(serve), nw)
+		if fromVersion {
+			c.add(rule, k+"|badvers-reply-from-edns.Version", Discharged, w.Pos(), false, "unsupported EDNS version: the reply is the one edns.Version built; options of an unknown version are not interpreted")
+			continue
+		}
+		c.Check(rule, k+"|carries-echoed-OPT", covered[w], w.Pos(), "a response written for a request with EDNS0 / a client subnet gets an OPT built here with the option echoed (left to SizeAndDo, the request's OPT is reused with the client subnet option filtered out)")
+	}
+	c.Check(rule, fnName(serve)+"|one-reattachment-site-per-answer-write", len(opts) >= 2 && len(opts) == len(covered), serve.Pos(), fmt.Sprintf("%d OPT constructions for %d covered response writes (of %d writes)", len(opts), len(covered), nw))
 	// writes of the entry point that follow an answer: those whose message is not a fresh REFUSED/BADVERS one are covered by one OPT site each
 	for i, o := range opts {
 		k := fmt.Sprintf("%s|opt#%d", fnName(serve), i)
@@ -503,5 +539,14 @@ func c10Fallback(c *Ctx) {
 	c.Check(rule, fnName(fn)+"|resolver-iff-no-ecs-location", ok, res.Pos(), "resolver-based location only when the client subnet gave none; a client-subnet match is never overridden")
 	ecall := ecsCall.(*ssa.Call)
 	isEcsErr := func(v ssa.Value) bool { cl, idx := callOfValue(v); return cl == ecall && idx == 1 }
-	c.Check(rule, fnName(fn)+"|ecs-error-returns-first", dominatedByNilEdge(res, isEcsErr) || !ecsCall.Block().Dominates(res.Block()), res.Pos(), "a failed ECS lookup is reported, not papered over by the resolver lookup")
+	// no path from the error edge of the ECS lookup reaches the resolver lookup
+	edges := nilEdgesOf(fn, isEcsErr)
+	okErr := len(edges) > 0
+	for _, e := range edges {
+		errSucc := e.If.Block().Succs[1-e.Succ]
+		if reachable(errSucc, nil)[res.Block()] {
+			okErr = false
+		}
+	}
+	c.Check(rule, fnName(fn)+"|ecs-error-returns-first", okErr, res.Pos(), fmt.Sprintf("a failed ECS lookup is reported, not papered over by the resolver lookup (%d error tests of the ECS lookup; the resolver lookup must be unreachable from their error edge)", len(edges)))
 }
